@@ -308,9 +308,6 @@ func c20NewWitSlot(dir, name, origin string, staging bool) *c20WitSlot {
 	sl := &c20WitSlot{Dir: dir, Name: name, Origin: origin, Staging: staging, Hash: c19OriginHash(origin), WrongHash: c19OriginHash("elsewhere." + origin),
 		W: c19NewCosigner(name, "c20 w "+name), M: c19NewCosigner("mirror."+name, "c20 m "+name), Rogue: c19NewCosigner("rogue."+name, "c20 rogue "+name),
 		Log: c19NewMirrorLog(origin, c20MaxN), roots: map[int64]verifmc.Hash{}, tiles: map[string][]byte{}}
-{
-		sl.roots[n] = verifmc.MTH(sl.Log.Leaves[:n])
-	}
 	c19Check(os.MkdirAll(filepath.Join(dir, "mirror"), 0o755))
 	return sl
 }
